@@ -76,6 +76,10 @@ def _helper_resolver(f):
             m = f.cls.find_method(fn.attr)
             if m is not None and m is not f and m.node is not f.node and len(m.node.body) <= 12:
                 return m.node
+        if isinstance(fn, ast.Name) and fn.id in f.module.functions:
+            m = f.module.functions[fn.id]
+            if m.node is not f.node and len(m.node.body) <= 12:
+                return m.node
         return None
 
     return resolve
@@ -132,3 +136,36 @@ def check_lambda(eng, R, rule, cname, fname, suffix, spec, what):
         if res == "unknown":
             raise AnalysisError("formula rule %s (%s): %s" % (rule, suffix, detail))
         R.ob(rule, "%s.%s:lambda %s" % (cname, fname, suffix), res == "equal", (f.file, lam.lineno), "%s: %s - %s" % (suffix, what, detail))
+
+
+def check_branches(eng, R, rule, cname, fname, target, branch_specs, what="", known=()):
+    """branch_specs: [(exact guard, spec)]. If the function still has these guards, every branch is compared with its own formula. If the branching was rewritten,
+    every assignment to the target must at least be one of the documented formulas (which formula belongs to which state can then not be decided)."""
+    f = get_func(eng.p, cname, fname)
+    if all(extract(f, "assign", target, w) for w, _ in branch_specs):
+        for w, spec in branch_specs:
+            check(eng, R, rule, cname, fname, "assign", spec, target=target, when=w, what=what, known=known)
+        return
+    forms = [(c, x, lv) for c, x, lv in extract(f, "assign", target) if x.canon() != "None"]
+    if not forms:
+        raise AnalysisError("formula rule %s: nothing to extract from %s (assign %s)" % (rule, f.qualname, target))
+    specs = [(norm_spec(sp), leaves(ast.parse(sp, mode="eval").body)) for _, sp in branch_specs]
+    for i, (ct, form, lv) in enumerate(forms):
+        res_all = [compare(form, sp, lv, spl, known) for sp, spl in specs]
+        if any(r == "equal" for r, _ in res_all):
+            ok = True
+        elif all(r == "unknown" for r, _ in res_all):
+            inl = [t for t in extract(f, "assign", target, inline=True) if t[1].canon() != "None"]
+            if len(inl) == len(forms):
+                form, lv = inl[i][1], inl[i][2]
+                res_all = [compare(form, sp, lv, spl, known) for sp, spl in specs]
+            if any(r == "equal" for r, _ in res_all):
+                ok = True
+            elif all(r == "unknown" for r, _ in res_all):
+                raise AnalysisError("formula rule %s at %s: %s (code: %s)" % (rule, f.qualname, res_all[0][1], form.canon()[:200]))
+            else:
+                ok = False
+        else:
+            ok = False
+        R.ob(rule, "%s.%s:%s:any branch@%d" % (cname, fname, target, i), ok, (f.file, f.lineno),
+             "%s [%s]: %s - the assigned value `%s` is none of the documented forms %s" % (f.qualname, ct, what, form.canon()[:160], [sp.canon()[:80] for sp, _ in specs]))
